@@ -11,6 +11,9 @@ local env = {}
 local loader_cache = {}
 local loaddata_cache = {}
 local _orig_package = package
+-- Names under which the host interpreter's own libraries sit in the real
+-- package.loaded (filled in below, before any module code can run)
+local host_library_names = {}
 
 -- https://github.com/wikimedia/mediawiki-extensions-Scribunto/blob/d35ca1f8d5fd23f1a9915e497cc00cac238f28c4/includes/Engines/LuaCommon/lualib/mwInit.lua#L38-L71
 --- Do a "deep copy" of a table or other value.
@@ -93,6 +96,13 @@ end
 -- Tries to look up a module loaded by require() from the cache.  This is
 -- also called from _lua_invoke().
 function _cached_mod(modname)
+    -- The real package.loaded also holds the host's own libraries (io, os,
+    -- python, package, _G, ...).  Module code reaches this function through
+    -- require() and as a global, so for those names only hand out what the
+    -- sandbox environment itself provides (the restricted os, math, ...).
+    if host_library_names[modname] then
+        return env[modname]
+    end
     if _orig_package.loaded[modname] then
         return _orig_package.loaded[modname]
     end
@@ -209,6 +219,12 @@ end
 -- Wiktionary uses a Module named "debug".  Force it to be loaded by
 -- require() when requested.
 package.loaded["debug"] = nil
+
+-- Everything still in package.loaded at this point is a library of the host
+-- interpreter: no module has been loaded through the sandbox yet.
+for k, _ in pairs(package.loaded) do
+    host_library_names[k] = true
+end
 
 -- This debugging snippet is adapted from:
 -- https://stackoverflow.com/questions/53399079/tracing-execution-of-lua-sripts
